@@ -117,6 +117,16 @@ def coeff_pool(rng, extra=40):
     for v in (mx, mx - 1, mx // 2, mx // 2 + 1, mx // 3, mx // 10, mx // 10 + 1, mx // 100, mx // 10 ** 18, mx // 10 ** 18 + 1):
         pool.add(v)
         pool.add(-v)
+    # exact ties / near-ties of the binary float formats (C12): (2^53 + 1) * 2^k, (2^24 + 1) * 2^k and neighbours,
+    # and 5/8-ulp patterns
+    for F in (53, 24):
+        for k in (0, 1, 2, 5, 10, 20, 40, 60, 70, 100):
+            for off in (-1, 0, 1):
+                for num in ((1 << F) + 1, (1 << F) + 3, (1 << (F + 1)) - 1, (1 << (F + 3)) + 5, (1 << (F + 3)) + 4):
+                    v = (num << k) + off
+                    if 0 < v <= mx:
+                        pool.add(v)
+                        pool.add(-v)
     for _ in range(extra):
         bits = rng.choice([4, 8, 16, 30, 60, 64, 90, 120, 126, 127])
         v = rng.getrandbits(bits)
@@ -175,13 +185,24 @@ def operands(kind, rng, budget):
         vals = [0.0, -0.0, 1.0, -1.0, 0.1, 0.5, 1e-18, 5e-19, 4.9e-19, 1.5, 2.5, 1e15, 1e22, 1.7e38, 1.8e38, 1e300, 5e-324,
                 float('inf'), float('-inf'), float('nan'), 123456.789, -2.0 ** 127, 2.0 ** 127, 2.0 ** -70, 3 * 2.0 ** -19]
         bits = [struct.unpack('<Q', struct.pack('<d', v))[0] for v in vals]
+        for k in (19, 20, 21, 22, 30, 60, 61, 62, 63):
+            for m in (1, 3, 5, 7, 2 ** 19 + 1, 2 ** 19 + 3, 2 ** 25 + 5, 2 ** 40 + 7):
+                for sgn in (1.0, -1.0):
+                    bits.append(struct.unpack('<Q', struct.pack('<d', sgn * m / 2.0 ** k))[0])
+        for v in (6e-19, -7e-19, 5.0000000000000001e-19, 4.9999999999999999e-19, 8.6e-19, 1.5e-18, 2.5e-18):
+            bits.append(struct.unpack('<Q', struct.pack('<d', v))[0])
         for _ in range(60):
             bits.append(rng.getrandbits(64))
             e = rng.randint(1023 - 70, 1023 + 130)
             bits.append((rng.getrandbits(1) << 63) | (e << 52) | rng.getrandbits(52))
         return ['f64:%d' % b for b in bits]
     if kind == 'f32':
+        import struct
         bits = [0, 1 << 31, 0x3f800000, 0x7f800000, 0xff800000, 0x7fc00000, 0xff000000, 0x7f000000, 1]
+        for k in (19, 20, 21, 22):
+            for m in (1, 3, 5, 7, 2 ** 19 + 1, 2 ** 20 + 3):
+                for sgn in (1.0, -1.0):
+                    bits.append(struct.unpack('<I', struct.pack('<f', sgn * m / 2.0 ** k))[0])
         for _ in range(60):
             bits.append(rng.getrandbits(32))
         return ['f32:%d' % b for b in bits]
